@@ -728,7 +728,9 @@ def g_segmentation(sc, T, R, grng):
     D, _, M = scene_images(sc, T)
     for it in range(3):
         thr = sc['bkg'] + grng.uniform(1.1, 8.0)
-        npix = grng.choice([1, 3, 5, 12, 40])
+        if it == 1:      # inside the noise: many small speckle components all over the frame
+            thr = sc['bkg'] + grng.uniform(0.88, 0.99)
+        npix = grng.choice([1, 3, 5, 12, 40]) if it != 1 else grng.choice([1, 2, 3, 4])
         conn = grng.choice([4, 8])
         use_mask = grng.random() < 0.6
         thr2d = it == 2
@@ -870,6 +872,23 @@ def g_source_catalog(sc, T, R, grng):
                   exact=True, ttol=(1e-8, 1e-9), detail=det)
     compare_props(R, 'SourceCatalog', c0, c1, T, CAT_BEYOND, lambda nm: interior, exact=False,
                   ttol=(1e-6, 1e-7), detail=det)
+    # direct oracle: background_centroid = bilinear interpolation of the background at (row, col) =
+    # (ycentroid, xcentroid) (the centroid lies inside the segment's bounding box, hence inside the frame)
+    if opts['use_bkg']:
+        for cat, bk, frame in ((c0, bkgmap, 'original'), (c1, T.img(bkgmap, 0.0), 'transformed')):
+            xx, yy = val(cat.xcentroid), val(cat.ycentroid)
+            want = np.full(len(xx), np.nan)
+            for k in range(len(xx)):
+                if np.isfinite(xx[k]) and np.isfinite(yy[k]):
+                    j0, i0 = int(math.floor(yy[k])), int(math.floor(xx[k]))
+                    j1, i1 = min(j0 + 1, bk.shape[0] - 1), min(i0 + 1, bk.shape[1] - 1)
+                    fy, fx = yy[k] - j0, xx[k] - i0
+                    want[k] = ((1 - fy) * (1 - fx) * bk[j0, i0] + (1 - fy) * fx * bk[j0, i1]
+                               + fy * (1 - fx) * bk[j1, i0] + fy * fx * bk[j1, i1])
+            got = np.atleast_1d(val(cat.background_centroid))
+            R.ok('SourceCatalog', 'background_centroid = background interpolated at (ycentroid, xcentroid)',
+                 same(got, want, False, rtol=1e-9, atol=1e-9),
+                 lambda: dict(det(), frame=frame, background_centroid=js(got), interpolated=js(want)))
     # bilinear interpolation of the background at the (float) centroid: weights differ by rounding
     compare_props(R, 'SourceCatalog', c0, c1, T, {'background_centroid': 'same'}, lambda nm: allsel, exact=False,
                   ttol=(1e-8, 1e-9), detail=det)
